@@ -535,7 +535,6 @@ impl Array {
             .collect();
         let output_group_length: usize = output_dimensions.iter().skip(leading_count).product();
 
-        let mut indices = vec![0; std::cmp::max(input_dimensions.len(), output_dimensions.len())];
         let mut output_values = vec![0.0; output_length];
         if leading_count == 0 {
             let slices: Vec<&[Float]> = arrays
@@ -546,48 +545,40 @@ impl Array {
 
             let output_slice = &mut output_values[0..output_group_length];
             op(output_slice, &slices);
-        // TODO
-        // else if all dimensions match
-        // else (broadcast)
         } else {
-            let mut flat_indices = vec![0; arrays.len()];
-            let mut slices: Vec<&[Float]> = arrays
-                .iter()
-                .zip(&group_lengths)
-                .map(|(v, &g)| &v.values[0..g])
-                .collect();
-
+            let mut indices = vec![0; leading_count];
             for _ in 0..leading_length {
-                let output_offset = flatten_indices(&indices, &output_dimensions);
+                // the leading dimensions of each array are aligned from the right
+                let slices: Vec<&[Float]> = arrays
+                    .iter()
+                    .zip(&group_lengths)
+                    .map(|(array, &group_length)| {
+                        let array_leading_count =
+                            array.dimensions.len().saturating_sub(op_dimension_count);
+                        let offset = array
+                            .dimensions
+                            .iter()
+                            .take(array_leading_count)
+                            .zip(indices.iter().skip(leading_count - array_leading_count))
+                            .fold(0, |acc, (d, i)| acc * d + if *d == 1 { 0 } else { *i });
+                        &array.values[offset * group_length..(offset + 1) * group_length]
+                    })
+                    .collect();
+
+                let output_offset = output_dimensions
+                    .iter()
+                    .zip(indices.iter())
+                    .fold(0, |acc, (d, i)| acc * d + if *d == 1 { 0 } else { *i })
+                    * output_group_length;
                 let output_slice =
                     &mut output_values[output_offset..output_offset + output_group_length];
 
                 op(output_slice, &slices);
 
-                for (i, (x, d)) in indices
-                    .iter_mut()
-                    .zip(input_dimensions)
-                    .enumerate()
-                    .rev()
-                    .skip(op_dimension_count)
-                {
+                for (x, d) in indices.iter_mut().zip(input_dimensions).rev() {
                     if *x == *d - 1 {
                         *x = 0;
                     } else {
-                        for (((index, slice), array), group_length) in flat_indices
-                            .iter_mut()
-                            .zip(slices.iter_mut())
-                            .zip(&arrays)
-                            .zip(&group_lengths)
-                        {
-                            if i < array.dimensions.len().saturating_sub(op_dimension_count)
-                                && array.dimensions[i] != 1
-                            {
-                                *index += group_length;
-                                *slice = &array.values[*index..*index + group_length];
-                            }
-                        }
-
                         *x += 1;
                         break;
                     }
